@@ -214,6 +214,17 @@ func (ge *gen) block(parent string, depth int) eng.Frag {
 			par = subs[i].ID
 		}
 		fr := ge.block(par, depth+1)
+		if ge.o.tailCtask && ge.rng.Intn(4) == 0 {
+			// the content of the sub-process ENDS with an activity whose conditional outgoing flows can all be true: several
+			// tokens run to the inner end event one after the other — the sub-process is over when the last one is consumed
+			saved := ge.o.kinds
+			ge.o.kinds = []string{"task", "task", "seq", "xor"}
+			ge.budget += 3
+			ct := ge.ctask(par)
+			ge.o.kinds = saved
+			fr = ge.g.Seq(fr, ct)
+			ge.stats["sub_process_ending_with_ctask"]++
+		}
 		for i := levels - 1; i >= 0; i-- {
 			fr = ge.g.SubEnd(subs[i], fr)
 		}
